@@ -24,6 +24,7 @@ from fractions import Fraction as F
 
 import core
 import fracexec
+import u4_util as U4
 from fracexec import frac_str, frac_list
 from props import c13, c14
 
@@ -276,6 +277,7 @@ def gen_surf(rng):
     c = dict(pres=rq(rng, 90000, 104000, 1), tempRef=rq(rng, 260, 320, 4),
              humRef=rq(rng, 0, 0.025, 2000), windRef=rng.choice([F(0), rq(rng, 0, 15, 20)]),
              horizontal=rng.choice([0, 1]), month=rng.randint(1, 12))
+    c['circ'] = U4.circ_pick(rng)
     return c
 
 
@@ -301,9 +303,15 @@ def impl_surf(pkg, c):
     par = surf_param()
     par.cp = F(1004)
     forc = NS(pres=c['pres'], deepTemp=F(290), prec=F(0))
+    circ = c.get('circ', '')       # circumstance that is no input: Element rendered around the call / DEBUG logging
     try:
-        e.SurfFlux(forc, par, NS(dt=F(300), month=c['month']), c['humRef'], c['tempRef'],
-                   c['windRef'], F(1), F(0))
+        if U4.rendered(circ):
+            U4.observe(e)
+        with U4.under(circ):
+            e.SurfFlux(forc, par, NS(dt=F(300), month=c['month']), c['humRef'], c['tempRef'],
+                       c['windRef'], F(1), F(0))
+        if U4.rendered(circ):
+            U4.observe(e)
     except ZeroDivisionError:
         return 'err zerodiv'
     return 'ok %s' % frac_str(e.aeroCond)
@@ -358,6 +366,7 @@ def gen_urb(rng, kind=None):
         c['wind'] = rq(rng, 0, 2, 4)
     if kind == 'calm':
         c['wind'] = F(0)
+    c['circ'] = U4.circ_pick(rng)
     return c
 
 
@@ -464,8 +473,14 @@ def impl_urb(pkg, c):
     line = urb_line(c, ucm)
     sline = 'surf pres=%s tempRef=%s humRef=%s windRef=%s' % tuple(
         frac_str(x) for x in (c['pres'], c['canTemp'], c['canHum'], c['canWind0']))
-    try:
-        mod(pkg, 'urbflux').urbflux(*args)
+    circ = c.get('circ', '')       # circumstance that is no input: UCMDef / UBLDef / road rendered around the call,
+    try:                           # DEBUG logging on around it
+        if U4.rendered(circ):
+            U4.observe(ucm, ubl, getattr(ucm, 'road', None))
+        with U4.under(circ):
+            mod(pkg, 'urbflux').urbflux(*args)
+        if U4.rendered(circ):
+            U4.observe(ucm, ubl, getattr(ucm, 'road', None))
     except (ZeroDivisionError, ValueError, IndexError, TypeError) as e:
         return line, sline, err_of(e)
     r = {k: F(getattr(ucm, k)) for k in URB_OUT[1:]}
